@@ -14040,9 +14040,34 @@ func (l *Lowerer) isTextureFunction(name string) bool {
 }
 
 // lowerTextureCall converts a texture function call to IR.
+// textureBuiltinMinArgs is the smallest argument count of any overload of a
+// texture builtin; the per-builtin lowering indexes its arguments up to it.
+var textureBuiltinMinArgs = map[string]int{
+	"textureSample":                3,
+	"textureSampleBias":            4,
+	"textureSampleLevel":           4,
+	"textureSampleGrad":            5,
+	"textureSampleCompare":         4,
+	"textureSampleCompareLevel":    4,
+	"textureSampleBaseClampToEdge": 3,
+	"textureGather":                3,
+	"textureGatherCompare":         4,
+	"textureLoad":                  2,
+	"textureStore":                 3,
+	"textureAtomicMin":             3,
+	"textureAtomicMax":             3,
+	"textureAtomicAdd":             3,
+	"textureAtomicAnd":             3,
+	"textureAtomicOr":              3,
+	"textureAtomicXor":             3,
+}
+
 func (l *Lowerer) lowerTextureCall(name string, args []parser.Expr, target *[]ir.Statement) (ir.ExpressionHandle, error) {
 	if len(args) < 1 {
 		return 0, fmt.Errorf("%s requires at least 1 argument", name)
+	}
+	if minArgs, ok := textureBuiltinMinArgs[name]; ok && len(args) < minArgs {
+		return 0, fmt.Errorf("%s requires at least %d arguments, got %d", name, minArgs, len(args))
 	}
 
 	switch name {
